@@ -2737,8 +2737,8 @@ class Builder(object):
                 if connective in ('as', ):
                     parts = []
                     while index < len(tokens): # kind parts end when connective
-                        if tokens[index] in ['as', 'at', 'with', 'from' 'per',
-                                             'for', 'cum', 'qua' ]: # end of parts
+                        if tokens[index] in ['as', 'at', 'via', 'with', 'from',
+                                             'per', 'for', 'cum', 'qua' ]: # end of parts
                             break
                         parts.append(tokens[index])
                         index += 1 #eat token
